@@ -13,7 +13,8 @@
 //     buildTagFields assigns to a parameter (leak), the pointer tests of oj's tightSlice/tightMap,
 //     whether alt's reflectMap calls isNil, the guards of registerComposer and recomp on
 //     `c.rtype`, whether getTypeStruct selects structEmptyMap, which flag newFinfo hands to it and
-//     what the builders pass for that flag.
+//     what the builders pass for that flag; the nil tests of recomp/setValue, indexType's look through an
+//     embedded pointer, the skipNilEmbedded wrappers of the builders.
 //
 // It fails loudly on source shapes it cannot read.
 package main
@@ -465,6 +466,59 @@ func rflSourceFacts(repo string, b *strings.Builder) error {
 		return fmt.Errorf("reflect extractor: alt.registerComposer: `ft = ft.Elem()` not found")
 	}
 	fmt.Fprintf(b, "/-- alt/recomposer.go registerComposer: the field walk unwraps containers in a loop, down to the element type -/\ndef altRegisterWalkUnwrapsAll : Bool := %v\n\n", inLoop)
+	// value-level repairs 4344ad7, f1da31f, b19f06c
+	sv := rflFuncDecl(fr, "Recomposer", "setValue")
+	if sv == nil {
+		return fmt.Errorf("reflect extractor: alt/recomposer.go: setValue not found")
+	}
+	has := func(fd *ast.FuncDecl, cond string) int {
+		n := 0
+		for _, c := range rflAllIfConds(fsr, fd, cond) {
+			if c == cond {
+				n++
+			}
+		}
+		return n
+	}
+	nilPtr := has(rp, "va[i] == nil") == 1 && has(rp, "m == nil") == 1 && has(sv, "v == nil") == 1
+	nilIface := has(rp, "v = r.recompAny(v); v != nil") == 1 && has(sv, "v = r.recompAny(v); v != nil") == 1 &&
+		has(rp, "x := r.recompAny(m); x != nil") == 1
+	fmt.Fprintf(b, "/-- alt/recomposer.go: a nil datum leaves a pointer element of a slice/map and a pointer slot of setValue nil (4344ad7) -/\ndef altNilPtrElemKept : Bool := %v\n\n", nilPtr)
+	fmt.Fprintf(b, "/-- alt/recomposer.go: a nil datum for an interface slot is tested before Set / kept as a map member (f1da31f) -/\ndef altNilIfaceKept : Bool := %v\n\n", nilIface)
+	fsc, fc, err := rflParse(repo, "alt", "composer.go")
+	if err != nil {
+		return err
+	}
+	it := rflFuncDecl(fc, "", "indexType")
+	if it == nil {
+		return fmt.Errorf("reflect extractor: alt/composer.go: indexType not found")
+	}
+	embOK := false
+	for _, c := range rflAllIfConds(fsc, it, "f.Anonymous") {
+		if c == "f.Anonymous && et.Kind() == reflect.Struct" {
+			embOK = true
+		}
+	}
+	alloc := rflFuncDecl(fr, "", "fieldByIndexAlloc") != nil && rflContainsIdent(rp.Body, "fieldByIndexAlloc") && !strings.Contains(rflExprText(fsr, rp.Body), "rv.FieldByIndex(sf.Index)")
+	fmt.Fprintf(b, "/-- alt: indexType looks through an embedded pointer and flattens structs only; recomp fetches a field through fieldByIndexAlloc when there is a datum (b19f06c) -/\ndef altEmbeddedPtrIndexed : Bool := %v\n\n", embOK && alloc)
+	// C15: the flattened entries of an embedded pointer skip a nil pointer on the way (272431d)
+	for _, pkg := range []string{"oj", "sen", "alt"} {
+		fsx, fx, err := rflParse(repo, pkg, "sinfo.go")
+		if err != nil {
+			return err
+		}
+		_ = fsx
+		n := 0
+		ast.Inspect(fx, func(x ast.Node) bool {
+			if ce, ok := x.(*ast.CallExpr); ok {
+				if id, ok := ce.Fun.(*ast.Ident); ok && id.Name == "skipNilEmbedded" {
+					n++
+				}
+			}
+			return true
+		})
+		fmt.Fprintf(b, "/-- %s/sinfo.go: how many builders wrap the index access of a flattened embedded pointer in skipNilEmbedded (272431d: all three) -/\ndef %sSkipNilEmbeddedCalls : Nat := %d\n\n", pkg, pkg, n)
+	}
 	fmt.Fprintf(b, "/-- alt/recomposer.go registerComposer: when a new composer is built -/\ndef altRegisterNewCond : String := %q\n\n", g1)
 	fmt.Fprintf(b, "/-- alt/recomposer.go recomp: the lookups of a composer by bare type name -/\ndef altRecompLookups : List String := %s\n\n", rflLeanList(g2))
 	return nil
